@@ -61,6 +61,12 @@ var glTargets = []glTarget{
 	{pkg: "service/metrics", recv: "measuredConn", name: "Write"},
 	{pkg: "service/metrics", recv: "measuredConn", name: "WriteTo"},
 	{pkg: "service/metrics", recv: "measuredConn", name: "ReadFrom"},
+	{pkg: "prometheus", recv: "tcpConnMetrics", name: "AddAuthenticated", opaque: map[string]bool{"toIPKey": true}},
+	{pkg: "prometheus", recv: "tcpConnMetrics", name: "AddClosed", opaque: map[string]bool{"toIPKey": true}},
+	{pkg: "prometheus", recv: "tcpConnMetrics", name: "AddProbe"},
+	{pkg: "prometheus", recv: "udpConnMetrics", name: "AddPacketFromClient"},
+	{pkg: "prometheus", recv: "udpConnMetrics", name: "AddPacketFromTarget"},
+	{pkg: "prometheus", recv: "udpConnMetrics", name: "RemoveNatEntry", opaque: map[string]bool{"toIPKey": true}},
 	{pkg: "prometheus", recv: "tunnelTimeMetrics", name: "reportTunnelTime", opaque: map[string]bool{"asnLabel": true}},
 	{pkg: "prometheus", recv: "tunnelTimeMetrics", name: "startConnection"},
 	{pkg: "prometheus", recv: "tunnelTimeMetrics", name: "stopConnection", opaque: map[string]bool{"asnLabel": true}},
@@ -314,6 +320,9 @@ func (g *golean) fieldKept(v *types.Var) bool {
 	}
 	if p, ok := t.(*types.Pointer); ok {
 		t = p.Elem()
+		if _, ok := t.Underlying().(*types.Struct); ok && isRepoType(t) {
+			return false // a shared object of the repository: calls on it are recorded as effects, it is not part of this value
+		}
 		if _, ok := t.Underlying().(*types.Struct); ok && !isRepoType(t) {
 			return isNamed(t, "github.com/Jigsaw-Code/outline-sdk/transport/shadowsocks", "EncryptionKey") || isNamed(t, "container/list", "List")
 		}
@@ -940,6 +949,32 @@ func (f *glFn) call(c *ast.CallExpr, value bool) string {
 			return "(" + pname + " " + strings.Join(as, " ") + ")"
 		}
 	}
+	// --- a method of a shared object of the repository reached through a field of the receiver: an effect ---
+	if sel != nil && !value && rn != "" {
+		if fs, ok := sel.X.(*ast.SelectorExpr); ok && isPtrToRepoStruct(f.typeOf(sel.X)) {
+			if fsel, ok := f.p.TypesInfo.Selections[fs]; ok && fsel.Kind() == types.FieldVal {
+				root := f.rootIdent(sel.X)
+				if root != "" {
+					// name: the field path below the root
+					path := exprString(sel.X)
+					if i := strings.IndexByte(path, '.'); i >= 0 {
+						path = path[i+1:]
+					}
+					var vals []string
+					for _, a := range c.Args {
+						at, ok := f.atoms(f.expr(a), f.typeOf(a))
+						if !ok {
+							return f.fail(c, "effect argument of type %s", f.typeOf(a))
+						}
+						vals = append(vals, at)
+					}
+					f.g.effs[f.rootStruct(sel.X)] = true
+					return lid(root) + " := { " + lid(root) + " with eff := " + lid(root) + ".eff ++ [{ name := " + leanStr(path+"."+fn.Name()) +
+						", args := [], vals := [" + strings.Join(vals, ", ") + "] }] }"
+				}
+			}
+		}
+	}
 	// --- another translated function ---
 	key := strings.TrimPrefix(pkgPath, "github.com/Jigsaw-Code/outline-ss-server/") + "." + rn + "." + fn.Name()
 	if callee, ok := f.g.fns[key]; ok {
@@ -1061,6 +1096,36 @@ func (f *glFn) rootStruct(e ast.Expr) string {
 			return ""
 		}
 	}
+}
+
+// atoms renders a value as a list of GoRT.Atom (structures are flattened field by field)
+func (f *glFn) atoms(e string, t types.Type) (string, bool) {
+	lt := f.leanType(t)
+	switch {
+	case lt == "Int":
+		return "[Atom.int " + e + "]", true
+	case lt == "String":
+		return "[Atom.str " + e + "]", true
+	case lt == "Bool":
+		return "[Atom.bool " + e + "]", true
+	case strings.HasPrefix(lt, "(Opaque "):
+		return "[Atom.tok (" + e + ").val]", true
+	}
+	if st, ok := derefT(t).Underlying().(*types.Struct); ok && isRepoType(derefT(t)) {
+		var parts []string
+		for i := 0; i < st.NumFields(); i++ {
+			if !f.g.fieldKept(st.Field(i)) {
+				continue
+			}
+			a, ok := f.atoms("("+e+")."+lid(st.Field(i).Name()), st.Field(i).Type())
+			if !ok {
+				return "", false
+			}
+			parts = append(parts, a)
+		}
+		return "(" + strings.Join(parts, " ++ ") + ")", true
+	}
+	return "", false
 }
 
 // ---- pointer locals: value semantics with write-back, and a nil flag ----
@@ -1808,6 +1873,9 @@ func (f *glFn) translate() {
 	for _, fl := range fd.Type.Params.List {
 		for _, n := range fl.Names {
 			f.idName(n)
+			if _, isChan := f.p.TypesInfo.Defs[n].Type().Underlying().(*types.Chan); !isChan {
+				f.leanType(f.p.TypesInfo.Defs[n].Type()) // declares the structures the signature mentions
+			}
 		}
 	}
 	// in-outs: pointer receiver and pointer parameters to repo structs
